@@ -188,7 +188,7 @@ def data_rows(df):
             zip(df['ceilo'], df['dt'], df['height'], df['type'])]
 
 
-def run_scene(rows, prms, index=None, stages=('slices', 'groups', 'layers'), frame=None, debug_log=None):
+def run_scene(rows, prms, index=None, stages=('slices', 'groups', 'layers'), frame=None, debug_log=None, chunk_kwargs=None):
     """Execute the real pipeline on one scene under recording.  Returns the observation dict.
     One scene in four (chosen from the scene itself) runs with the package's loggers at DEBUG."""
     common.import_ampycloud()
@@ -201,7 +201,7 @@ def run_scene(rows, prms, index=None, stages=('slices', 'groups', 'layers'), fra
     with common.debug_logging(debug_log), record.recording() as tr, warnings.catch_warnings(record=True) as wl:
         warnings.simplefilter('always')
         try:
-            chunk = CeiloChunk(df, prms=copy.deepcopy(prms))
+            chunk = CeiloChunk(df, prms=copy.deepcopy(prms), **(chunk_kwargs or {}))
             obs['data'] = data_rows(chunk.data)
             obs['labels_unique'] = bool(chunk.data.index.is_unique)
             obs['flag'] = bool(chunk.clouds_above_msa_buffer)
@@ -265,6 +265,11 @@ def kernel_sections(obs):
     for s in tr.sorts:
         if s['by'] == 'dt' and s['perm'] is not None and len(s['keys']) == len(dts) and np.array_equal(s['keys'], dts):
             dtord = s['perm']
+    if dtord is None and len(dts):
+        # no `sort_values('dt')` of the whole frame was observed (the unchanged code always makes one when it builds a
+        # table): the model is then given the stable time order, so that the property's own clauses (base = configured
+        # percentile of the most recent members, ...) are still evaluated on what the implementation reports
+        dtord = [int(i) for i in np.argsort(dts, kind='stable')]
     secs = ['DTORD ' + (' '.join(map(str, dtord)) if dtord is not None else '')]
     pc = _dedupe(tr.percentile, lambda r: (float(r['q']), r['vals'].tobytes()))
     secs.append('PCTL ' + ' ; '.join(
